@@ -19,7 +19,22 @@ def chain(cfg, q):
     return out
 
 
+def derive(cfg):
+    """Max / W / grouped of percentage shares as the generator needs them (floor(Max(parent) * pct / 100), window and grouping
+    inherited).  The oracle does NOT use these: FixedWindowCfg.tla derives them again from the configured percentages."""
+    pct = cfg.get("pct", {})
+    for q in sorted(cfg["quotas"], key=lambda q: len(chain(cfg, q))):
+        if pct.get(q, 0):
+            par = cfg["parent"][q]
+            cfg["Max"][q] = cfg["Max"][par] * pct[q] // 100
+            cfg["W"][q] = cfg["W"][par]
+            cfg["grouped"][q] = cfg["grouped"][par]
+    return cfg
+
+
 def _strategy(cfg, q, ind):
+    if cfg.get("pct", {}).get(q, 0):
+        return ["%sstrategy:" % ind, "%s  allocation_percentage: %d" % (ind, cfg["pct"][q])]
     custom = cfg.get("custom", False)
     name = "fixed_window_custom_counter" if custom else "fixed_window"
     lines = ["%sstrategy:" % ind, "%s  %s:" % (ind, name),
@@ -40,7 +55,10 @@ def files_of(cfg):
     roots = [q for q in cfg["quotas"] if cfg["parent"][q] == "-"]
     for q in roots:
         ql += ["  - id: %s" % q, "    filter:", "      url: api.test/*"] + _strategy(cfg, q, "    ")
-    rest = sorted([q for q in cfg["quotas"] if cfg["parent"][q] != "-"], key=lambda q: len(chain(cfg, q)))
+    # parents before children (the loader drops an internal limit declared before its parent); the order among
+    # the others is the configuration's (cfg["order"]: declaration orders are part of the configuration space)
+    order = cfg.get("order", cfg["quotas"])
+    rest = sorted([q for q in order if cfg["parent"][q] != "-"], key=lambda q: len(chain(cfg, q)))
     if rest:
         ql.append("internal_limits:")
     for q in rest:
@@ -107,7 +125,13 @@ flow:
 
 
 def script_of(cfg, histories, hooks=False):
-    model = {k: cfg[k] for k in ("quotas", "parent", "Max", "W", "grouped", "groups")}
+    model = {k: cfg[k] for k in ("quotas", "parent", "groups")}
+    pct = {q: cfg.get("pct", {}).get(q, 0) for q in cfg["quotas"]}
+    model["pct"] = pct
+    # what the configuration states explicitly; for a percentage share nothing but the percentage is stated
+    model["Max"] = {q: (cfg["Max"][q] if not pct[q] else 0) for q in cfg["quotas"]}
+    model["W"] = {q: (cfg["W"][q] if not pct[q] else 0) for q in cfg["quotas"]}
+    model["grouped"] = {q: (cfg["grouped"][q] if not pct[q] else False) for q in cfg["quotas"]}
     return {"config": model, "files": files_of(cfg), "header": HEADER,
             "cost_header": COST_HEADER if cfg.get("custom") else "", "hooks": hooks, "histories": histories}
 
@@ -130,6 +154,36 @@ def rand_config(rng, thorough, custom=False):
         cfg["W"][q] = rng.choice([2, 2, 4, 6])
         cfg["grouped"][q] = rng.random() < 0.5
     return cfg
+
+
+PCT_SHAPES = [
+    # siblings that are shares of one root; a share of a share
+    {"quotas": ["org", "ta", "tb"], "parent": {"org": "-", "ta": "org", "tb": "org"}, "pct": ["ta", "tb"]},
+    {"quotas": ["org", "ta", "tb", "tb1"], "parent": {"org": "-", "ta": "org", "tb": "org", "tb1": "tb"}, "pct": ["ta", "tb", "tb1"]},
+    {"quotas": ["org", "ta", "ta1", "tb"], "parent": {"org": "-", "ta": "org", "ta1": "ta", "tb": "org"}, "pct": ["ta", "ta1", "tb"]},
+    {"quotas": ["org", "ex", "sh", "sh1"], "parent": {"org": "-", "ex": "org", "sh": "org", "sh1": "sh"}, "pct": ["sh", "sh1"]},
+]
+
+
+def pct_config(rng, custom=False):
+    """hierarchies whose internal limits are percentage shares (allocation_percentage): several siblings, nested shares,
+    declaration orders, percentages giving fractional maxima (34 % of 10, 30 % of 5, ...)."""
+    while True:
+        sh = rng.choice(PCT_SHAPES)
+        cfg = {"quotas": list(sh["quotas"]), "parent": dict(sh["parent"]), "groups": ["a", "b", "default"],
+               "Max": {}, "W": {}, "grouped": {}, "custom": custom, "pct": {}}
+        for q in cfg["quotas"]:
+            cfg["Max"][q] = rng.choice([5, 6, 8, 10, 12]) if cfg["parent"][q] == "-" else rng.choice([2, 3, 4])
+            cfg["W"][q] = rng.choice([2, 4, 6])
+            cfg["grouped"][q] = rng.random() < 0.4
+            if q in sh["pct"]:
+                cfg["pct"][q] = rng.choice([25, 30, 34, 50, 50, 60, 75, 100])
+        order = [q for q in cfg["quotas"]]
+        rng.shuffle(order)
+        cfg["order"] = order
+        derive(cfg)
+        if all(cfg["Max"][q] >= 1 for q in cfg["quotas"]):
+            return cfg
 
 
 def rand_history(rng, cfg, n, conc):
@@ -339,7 +393,7 @@ def drift_check(ctx, tag, n):
         acc, rej, _ = validate_history_trace(ctx, SPEC, "FixedWindowITrace", ev, tag="%s-i%d" % (tag, i), max_rounds=1)
         return acc, rej, sum(1 for e in ev if e.get("ev") == "fw.inc")
     tot = 0
-    for acc, rej, k in parallel(one, list(range(n)), n=8):
+    for acc, rej, k in parallel(one, list(range(n)), n=2):
         tot += k
         if rej:
             ctx.cov["model_drift"] = True
@@ -358,7 +412,7 @@ def judge(ctx, binary, scripts, traces, tag, seen_hist):
     def one(it):
         i, ev = it
         return validate_history_trace(ctx, SPEC, "FixedWindowTrace", ev, tag="%s%d" % (tag, i))
-    res = parallel(one, list(enumerate(traces)), n=8)
+    res = parallel(one, list(enumerate(traces)), n=2)
     for (acc, rejected, rounds), ev, sc in zip(res, traces, scripts):
         cfg, hs = split_histories(ev)
         ctx.cov["traces_validated_against_impl"] += acc
@@ -455,14 +509,14 @@ def run(ctx):
         return ctx.tlc(sd, mod, cfg, workers=(4 if not T else 8), timeout=1500, label=label)
     from concurrent.futures import ThreadPoolExecutor
     bg = ThreadPoolExecutor(max_workers=1)
-    fut = bg.submit(lambda: parallel(tl, jobs, n=(8 if not T else 4)))
+    fut = bg.submit(lambda: parallel(tl, jobs, n=2))
 
     seen = set()
     # (3) code -> spec, while TLC works: random scripts incl. concurrency, recorded and validated
     ncfg, nh, hl = (6, 24, 28) if not T else (24, 80, 40)
     scripts = []
     for c in range(ncfg):
-        cfg = rand_config(ctx.rng, T, custom=(c % 3 == 2))
+        cfg = rand_config(ctx.rng, T, custom=(c % 3 == 2)) if c % 3 != 1 else pct_config(ctx.rng, custom=(c % 2 == 0))
         scripts.append(script_of(cfg, [rand_history(ctx.rng, cfg, hl, conc=(i % 2 == 1)) for i in range(nh)], hooks=True))
     nrand = len(scripts)
     scripts += storm_scripts(ctx.rng, T)
